@@ -40,6 +40,8 @@ def mutants(prog):
         ("logv compose default", Fm, "logv", "u = compose_flows(flow, u, align_corners=align_corners)", "u = compose_flows(flow, u)", "T4.logv-convention"),
         ("logv expv default", Fm, "logv", "padding=padding, align_corners=align_corners, inverse=True)", "padding=padding, inverse=True)", "T4.logv-convention"),
         ("logv: composes with the running field instead of the given flow", Fm, "logv", "u = compose_flows(flow, u, align_corners=align_corners)", "u = compose_flows(v, u, align_corners=align_corners)", "T4.logv-iteration"),
+        ("finite differences: float32 step size", "deepali.core.image", "spatial_derivatives", "if not data.is_floating_point():\n        data = data.float()", "data = data.float()", "T5.dtype"),
+        ("gaussian derivatives: spacing of the last axis", "deepali.core.image", "spatial_derivatives", "denom = spacing.narrow(1, sdim, 1)", "denom = spacing.narrow(1, D - 1, 1)", "T5.gaussian-spacing"),
     ]
     for name, mod, fn, old, new, expect in specs:
         ov = source_sub(prog, mod, fn, old, new)
